@@ -1098,7 +1098,11 @@ class TorConfig:
 
             else:
                 if v == '' or v == DEFAULT_VALUE:
-                    parsed = self.parsers[rn].parse(defaults.get(rn, DEFAULT_VALUE))
+                    v = defaults.get(rn, DEFAULT_VALUE)
+                if v == DEFAULT_VALUE:
+                    # unset and Tor didn't tell us a default;
+                    # __getattr__ knows about this marker
+                    parsed = DEFAULT_VALUE
                 else:
                     parsed = self.parsers[rn].parse(v)
                 self.config[rn] = parsed
